@@ -25,6 +25,8 @@ Readings (the weaker one where the statement leaves a choice):
 Signatures: a violating case that contains free text with the marker word is re-run with that text
 replaced by plain words; if the violation disappears the signature is
 'marker-word-in-trailing-comment' (root cause: the 'exogenous' substring test runs on the raw line),
+otherwise, if it disappears when also the free text with line-separator characters (classes sep*) is
+replaced: 'line-separator-character-in-free-text';
 otherwise: 'default-t-added-although-user-defines-time-axis' when the block defines t / t_minus_1 and
 the observed simultaneous list nevertheless holds t = k; else the signature spells the line forms.
 """
@@ -39,17 +41,35 @@ CLAUSE = {'E': 'C14_ExactlyOneClass', 'M': 'C14_MeaningUnchanged', 'T': 'C14_Tim
 DRIFT = {'o': 'list_or_message_order'}
 SIG_MARKER = 'marker-word-in-trailing-comment'
 SIG_TIME = 'default-t-added-although-user-defines-time-axis'
+SIG_SEP = 'line-separator-character-in-free-text'
 
 ONE_EQ = ('eq', 'lag1', 'lag2', 'lag3', 'ic', 'maxtime', 'errtol', 'usert')
 
-# texts of the comment classes; variant 0 is the model's own layout ('  # text'), variant 1 glues the
-# comment to the code and uses other spellings
+# texts of the comment classes; text variant 0 is the model's own layout ('  # text'), text variant 1 glues
+# the comment to the code and uses other spellings.  <S> stands for a line-separator character that is not
+# '\n' (classes sep*); a rendering variant v selects the text variant v % 2 and the separator SEPS[v // 2].
 COMMENTS = [
     {'plain': 'household consumption', 'eq': 'where a = b + c', 'hash': 'see # note #2',
-     'digits': '12345 0.5 (0) 1e-3', 'exo': 'an exogenous shock'},
+     'digits': '12345 0.5 (0) 1e-3', 'exo': 'an exogenous shock',
+     'sepeq': 'the 2015 version had<S> q = 0.25 * y', 'sepic': 'the 2015 version started from<S> x(0) = 0.',
+     'sepexo': 'tax rule<S> (the rate is exogenous in later versions)', 'sepplain': 'tax rule<S> flat rate'},
     {'plain': 'Lagged value (previous period)', 'eq': 'x=1', 'hash': '## ## #',
-     'digits': '42 (k-1) 2.', 'exo': 'Exogenous demand, G = 20 #1'},
+     'digits': '42 (k-1) 2.', 'exo': 'Exogenous demand, G = 20 #1',
+     'sepeq': 'was<S>x = 7', 'sepic': 'init<S>z(0)=1<S>MaxTime = 9', 'sepexo': 'note<S># Exogenous Variables',
+     'sepplain': 'a<S>b<S><S>c'},
 ]
+# what str.splitlines() (and text tools built like it) cuts at, besides '\n': form feed, vertical tab, the
+# ASCII file / group / record separators, NEL, the Unicode line / paragraph separators, a bare carriage return
+SEPS = ['\x0c', '\x0b', '\x1c', '\x1d', '\x1e', '\x85', u'\u2028', u'\u2029', '\r']
+SEP_NAMES = ['FF', 'VT', 'FS', 'GS', 'RS', 'NEL', 'U+2028', 'U+2029', 'CR']
+SEP_CLASSES = ('sepeq', 'sepic', 'sepexo', 'sepplain')
+ALL_SEP_VARIANTS = tuple(2 * i + i % 2 for i in range(len(SEPS)))      # every separator, texts alternating
+
+
+def free_text(table, cc, variant):
+    return table[variant % 2][cc].replace('<S>', SEPS[(variant // 2) % len(SEPS)])
+
+
 EQ = {'tight': '=', 'one': ' = ', 'wide': '   =  '}
 OPSEP = {'tight': '', 'one': ' ', 'wide': '  '}
 BLANK = {'tight': '', 'one': ' ', 'wide': ' \t  '}
@@ -99,7 +119,7 @@ def render(f, variant=0):
     if kind == 'blank':
         return BLANK[sp]
     if kind == 'comment':
-        return '# ' + COMMENTS[variant][f['cc']]
+        return '# ' + free_text(COMMENTS, f['cc'], variant)
     if kind == 'eq' or kind == 'usert':
         code = f['v'] + EQ[sp] + spaced(f['r'], sp)
     elif kind in LAG:
@@ -118,8 +138,8 @@ def render(f, variant=0):
         code = '  ' + code + ' \t'
     if f['cc'] == 'none':
         return code
-    text = COMMENTS[variant][f['cc']]
-    return code + ('  # ' + text if variant == 0 else '#' + text)
+    text = free_text(COMMENTS, f['cc'], variant)
+    return code + ('  # ' + text if variant % 2 == 0 else '#' + text)
 
 
 def render_block(forms, variant=0):
@@ -182,8 +202,12 @@ def user_time(forms):
     return any(f['kind'] in ONE_EQ and f['kind'] != 'ic' and f['v'] in ('t', 't_minus_1') for f in forms)
 
 
-def cured(forms):
-    return [dict(f, cc='plain') if f['cc'] == 'exo' else f for f in forms]
+def has_sep_text(forms):
+    return any(f['cc'] in SEP_CLASSES for f in forms)
+
+
+def cured(forms, classes=('exo',)):
+    return [dict(f, cc='plain') if f['cc'] in classes else f for f in forms]
 
 
 def generic_signature(forms):
@@ -234,18 +258,25 @@ def judge_blocks(rep, items):
     if not bad:
         return
     # differential diagnosis: does the violation go away when the marker word leaves the free text?
-    cure_idx = [i for i, _ in bad if has_marker_text(items[i][0])]
-    cure_traces = [(n, [execute(cured(items[i][0]), items[i][1])]) for n, i in enumerate(cure_idx)]
-    cure_verdict = {}
-    if cure_traces:
-        cv = _validate(cure_traces, rep, tag='c14cure')
-        for n, i in enumerate(cure_idx):
-            cure_verdict[i] = cv[n]
+    # if not: when the line-separator characters (and the marker word) leave it?
+    def cure_batch(idx, classes, tag):
+        out = {}
+        if idx:
+            cv = _validate([(n, [execute(cured(items[i][0], classes), items[i][1])]) for n, i in enumerate(idx)],
+                           rep, tag=tag)
+            for n, i in enumerate(idx):
+                out[i] = not cv[n].startswith('property')
+        return out
+    cure_marker = cure_batch([i for i, _ in bad if has_marker_text(items[i][0])], ('exo',), 'c14cure')
+    cure_sep = cure_batch([i for i, _ in bad if has_sep_text(items[i][0]) and not cure_marker.get(i)],
+                          ('exo',) + SEP_CLASSES, 'c14cure')
     for i, letters in bad:
         forms, variant = items[i]
         ev = traces[i][1][0]
-        if i in cure_verdict and not cure_verdict[i].startswith('property'):
+        if cure_marker.get(i):
             sig = SIG_MARKER
+        elif cure_sep.get(i):
+            sig = SIG_SEP
         elif user_time(forms) and {'var': 't', 'rhs': 'k'} in ev['obs']['endo']:
             sig = SIG_TIME
         else:
@@ -282,7 +313,7 @@ TEMPLATES = {
     'lagtime': [L('eq', 's', 't+1'), L('lag1', 't', 's'), L('ic', 't', '2000.'), L('eq', 'y', '0.5*y+s'),
                 L('marker'), L('eq', 'g', '[2.]*10'), L('maxtime', 'MaxTime', '3')],
 }
-HOSTILE = ('plain', 'eq', 'hash', 'digits', 'exo')
+HOSTILE = ('plain', 'eq', 'hash', 'digits', 'exo') + SEP_CLASSES
 SPACINGS = ('tight', 'one', 'wide')
 LAGS = ('lag1', 'lag2', 'lag3')
 
@@ -354,9 +385,13 @@ SIM_NAMES = {'country': 'C', 'GOV': 'Government', 'HH': 'Household', 'BUS': 'Bus
 SIM_KEYS = ('country', 'GOV', 'HH', 'BUS', 'TF', 'LAB', 'GOOD', 'desc1', 'desc2')
 NAME_TEXT = [
     {'plain': 'Sector of the plain kind', 'eq': 'Sector where a = b', 'hash': 'Sector #2 (see # note)',
-     'digits': 'Sector 12345 (0) 0.5', 'exo': 'Sector hit by an exogenous shock'},
+     'digits': 'Sector 12345 (0) 0.5', 'exo': 'Sector hit by an exogenous shock',
+     'sepeq': 'Sector; the 2015 version had<S> HH__AlphaIncome = 0.25', 'sepic': 'Sector; started from<S> HH__F(0) = 50.',
+     'sepexo': 'Sector<S> (demand is exogenous in later versions)', 'sepplain': 'Sector<S> second page'},
     {'plain': 'Another name', 'eq': 'MaxTime = 1', 'hash': '###', 'digits': '2. (k-1) 1e-3',
-     'exo': 'EXOGENOUS = # 7'},
+     'exo': 'EXOGENOUS = # 7',
+     'sepeq': 'Name<S>GOV__T = 0.', 'sepic': 'Name<S>GOV__F(0)=1<S>MaxTime = 2', 'sepexo': 'Name<S># Exogenous Variables',
+     'sepplain': 'a<S>b<S><S>c'},
 ]
 
 
@@ -410,7 +445,7 @@ def model_names(classes, variant):
     names = dict(SIM_NAMES, desc1='Twice the after-tax income', desc2='Half of the taxes')
     for k, c in classes.items():
         if c != 'none':
-            names[k] = NAME_TEXT[variant][c]
+            names[k] = free_text(NAME_TEXT, c, variant)
     return names
 
 
@@ -434,21 +469,24 @@ def pair_cases(rep):
     """-> list of ('solve', name, forms, variant) / ('model', classes, variant)"""
     rnd = random.Random(rep.seed)
     cases = []
+    nv = 2 * len(SEPS)
+    count = 0
     for name in sorted(TEMPLATES):
         tpl = TEMPLATES[name]
         n = len(tpl)
         for j, cc in enumerate(HOSTILE):
             for m in range(3):
+                count += 1       # walks through the separators and the two text variants
                 cases.append(('solve', name, dress(tpl, [cc] * n, [SPACINGS[(m + i) % 3] for i in range(n)],
-                                                   LAGS[m]), (j + m) % 2))
+                                                   LAGS[m]), (2 * count + (j + m) % 2) % nv))
         for _ in range(5 if rep.tier == 'quick' else 150):
             cases.append(('solve', name, dress(tpl, [rnd.choice(('none',) + HOSTILE) for _i in range(n)],
                                                [rnd.choice(SPACINGS) for _i in range(n)], rnd.choice(LAGS)),
-                          rnd.randrange(2)))
+                          rnd.randrange(nv)))
     for j, cc in enumerate(HOSTILE):
-        cases.append(('model', {k: cc for k in SIM_KEYS}, j % 2))
+        cases.append(('model', {k: cc for k in SIM_KEYS}, (2 * (3 * j) + j % 2) % nv))
     for _ in range(3 if rep.tier == 'quick' else 60):
-        cases.append(('model', {k: rnd.choice(('none',) + HOSTILE) for k in SIM_KEYS}, rnd.randrange(2)))
+        cases.append(('model', {k: rnd.choice(('none',) + HOSTILE) for k in SIM_KEYS}, rnd.randrange(nv)))
     return cases
 
 
@@ -458,16 +496,16 @@ def run_pair(c):
     return model_pair(c[1], c[2])
 
 
-def pair_has_marker(c):
+def pair_has(c, classes):
     if c[0] == 'solve':
-        return has_marker_text(c[2])
-    return any(v == 'exo' for v in c[1].values())
+        return any(f['cc'] in classes for f in c[2])
+    return any(v in classes for v in c[1].values())
 
 
-def pair_cured(c):
+def pair_cured(c, classes):
     if c[0] == 'solve':
-        return ('solve', c[1], cured(c[2]), c[3])
-    return ('model', {k: ('plain' if v == 'exo' else v) for k, v in c[1].items()}, c[2])
+        return ('solve', c[1], cured(c[2], classes), c[3])
+    return ('model', {k: ('plain' if v in classes else v) for k, v in c[1].items()}, c[2])
 
 
 def pair_signature(c):
@@ -488,19 +526,25 @@ def judge_pairs(rep, cases):
     verdicts = _validate(traces, rep, tag='c14pair')
     rep.traces += len(traces)
     bad = [i for i in range(len(cases)) if split_verdict(verdicts[i])[0] == 'property']
-    # differential diagnosis as for blocks, in one batch
-    cure_idx = [i for i in bad if pair_has_marker(cases[i])]
-    cure_verdict = {}
-    if cure_idx:
-        cv = _validate([(n, [run_pair(pair_cured(cases[i]))[0]]) for n, i in enumerate(cure_idx)], rep,
-                       tag='c14cure')
-        for n, i in enumerate(cure_idx):
-            cure_verdict[i] = cv[n]
+    # differential diagnosis as for blocks
+    def cure_batch(idx, classes):
+        out = {}
+        if idx:
+            cv = _validate([(n, [run_pair(pair_cured(cases[i], classes))[0]]) for n, i in enumerate(idx)], rep,
+                           tag='c14cure')
+            for n, i in enumerate(idx):
+                out[i] = not cv[n].startswith('property')
+        return out
+    cure_marker = cure_batch([i for i in bad if pair_has(cases[i], ('exo',))], ('exo',))
+    cure_sep = cure_batch([i for i in bad if pair_has(cases[i], SEP_CLASSES) and not cure_marker.get(i)],
+                          ('exo',) + SEP_CLASSES)
     for i in bad:
         c = cases[i]
         letters = split_verdict(verdicts[i])[1]
-        if i in cure_verdict and not cure_verdict[i].startswith('property'):
+        if cure_marker.get(i):
             sig = SIG_MARKER
+        elif cure_sep.get(i):
+            sig = SIG_SEP
         else:
             sig = pair_signature(c)
         case = dict(info[i], observed=traces[i][1][0], case=list(c))
@@ -516,13 +560,16 @@ def judge_pairs(rep, cases):
 
 def run(rep):
     # (cfg, variants used to spell each behaviour)
-    plan = [('MC_Parser_quick.cfg', (0,)), ('MC_Parser_quick2.cfg', (0, 1)), ('MC_Parser_quick3.cfg', (0, 1))]
+    # 'rot' = one variant per behaviour, walking through the separators
+    plan = [('MC_Parser_quick.cfg', (0,)), ('MC_Parser_quick2.cfg', (0, 1)), ('MC_Parser_quick3.cfg', (0, 1)),
+            ('MC_Parser_quick4.cfg', ALL_SEP_VARIANTS)]
     if rep.tier != 'quick':
-        plan += [('MC_Parser_thorough3.cfg', (0, 1)), ('MC_Parser_thorough2.cfg', (1,)),
-                 ('MC_Parser_thorough.cfg', (0,))]
+        plan += [('MC_Parser_thorough3.cfg', (0, 1)), ('MC_Parser_thorough4.cfg', ALL_SEP_VARIANTS),
+                 ('MC_Parser_thorough2.cfg', 'rot'), ('MC_Parser_thorough.cfg', (0,))]
     rep.rule = ('behaviours = all maximal behaviours of the bounded Parser instance emitted by TLC = equation blocks '
                 'as sequences of line forms (kind x variable/right-hand side x trailing-comment class x spacing), '
-                'each spelled out in the listed text variants and parsed by the real EquationParser together with '
+                'each spelled out in the listed text variants (two spellings of the comment texts x the non-newline '
+                'line-separator characters FF VT FS GS RS NEL U+2028 U+2029 CR for the sep* comment classes) and parsed by the real EquationParser together with '
                 'its comment-free twin; plus solve pairs / model pairs (plain vs hostile free text); distinct = '
                 'distinct (block, variant) JSON; non-trivial = the block has at least one well-formed one-"=" line')
     rep.exhaustive = True
@@ -545,8 +592,8 @@ def run(rep):
             raise core.MachineryError('%s: read %d distinct behaviours from TLC output, %d states' % (
                 cfg, len(set(codes)), res.distinct))
         items = []
-        for code in codes:
-            for variant in variants:
+        for n, code in enumerate(codes):
+            for variant in ((2 * (n % len(SEPS)) + 1,) if variants == 'rot' else variants):
                 k = (code, variant)
                 if k not in seen:
                     seen.add(k)
